@@ -56,12 +56,14 @@ Definition parse_byte_pos (s tail : bytes) : option Z :=
 Definition spec_parse (field : bytes) : option (Z * Z) * bool :=
   if (lenN field <? 2)%N then (None, false)
   else match field with
-  | 45%N :: r =>                                          (* suffix-byte-range-spec *)
+  | [] => (None, false)
+  | c0 :: r =>
+    if (c0 =? 45)%N then                                  (* *field == '-': suffix-byte-range-spec *)
       match parse_byte_pos r [] with
       | Some len => if known_spec len then (Some (unknown_pos, len), false) else (None, false)
       | None => (None, false)
       end
-  | _ =>
+    else
       let '(a, b) := span (fun c => negb (c =? 45)%N) field in    (* strchr(field, '-') && p - field < flen *)
       match b with
       | [] => (None, false)
